@@ -101,7 +101,7 @@ Definition ex_others_ok (k : nat) (t : N) : bool :=
   end.
 
 Example C15_ex_hyps : Forall op_ok ex_ops /\ 2 + 255 * nwrites ex_ops < sector_limit /\ snd ex_write = WOk
-  /\ map wpos (snd (fst ex_write)) = [4; 4096 + 4; 4096 * 3; 4096 * 3 + 4].
+  /\ map wpos (snd (fst ex_write)) = [4096 + 4; 4; 4096 * 3; 4096 * 3 + 4].
 Proof. split; [repeat constructor|]. vm_compute. repeat split; reflexivity. Qed.
 
 Example C15_ex_points :
@@ -122,7 +122,7 @@ Print Assumptions C15_written_chunk_can_be_stale.
 
 (* ================= phase 3: over the TRANSLATED WriteSector =================
    C14_skel_rw.interp_write interprets the statement skeleton tools/gotrans renders from save/region/mca.go on
-   every run; its write list is in SOURCE ORDER (C15_write_order_translated: header entry and timestamp BEFORE
+   every run; its write list is in SOURCE ORDER (C15_write_order_translated: timestamp, then header entry, BEFORE
    length and data when sectors are reallocated; length then data in place). *)
 From GoMC Require Proofs.C14_skel_rw Proofs.C14_skel_c15.
 
@@ -130,8 +130,8 @@ Theorem C15_write_order_translated : forall s x z d now s' ws,
   x < 32 -> z < 32 -> lenN d + 4 + 4095 < 2^43 -> hwm s <= sector_limit -> now < 2^63 ->
   C14_skel_rw.interp_write s x z d now = Some (s', ws, WOk) ->
   (exists n, map wpos ws = [4096 * n; 4096 * n + 4] /\ map wdat ws = [be 4 (flen d); d]) \/
-  (exists n o', map wpos ws = [4 * idx x z; 4096 + 4 * idx x z; 4096 * n; 4096 * n + 4] /\
-                map wdat ws = [be 4 o'; be 4 (now mod 2^32); be 4 (flen d); d]).
+  (exists n o', map wpos ws = [4096 + 4 * idx x z; 4 * idx x z; 4096 * n; 4096 * n + 4] /\
+                map wdat ws = [be 4 (now mod 2^32); be 4 o'; be 4 (flen d); d]).
 Proof. exact C14_skel_c15.write_order_translated. Qed.
 
 Theorem C15_isolation_translated : forall s m x z d now s' ws,
@@ -172,7 +172,7 @@ Proof. exact C14_skel_fail.failed_header_write_before_fix_refuted. Qed.
 
 Theorem C15_failed_header_write_fixed :
   exists s, C14_skel_fail.sc_after C14gen.WriteSector = Some s /\
-    C14_skel_fail.sc_disk_runs s = ((2, 1), (6, 1)) /\
+    C14_skel_fail.sc_disk_runs s = ((2, 1), (4, 1)) /\
     read_sector s 2 0 = ROk (C14_skel_fail.fill 5 100) /\ read_sector s 1 0 = ROk (C14_skel_fail.fill 3 100) /\
     C14_skel_fail.sc_e_after_reopen s = ROk (C14_skel_fail.fill 5 100).
 Proof. exact C14_skel_fail.failed_header_write_fixed. Qed.
